@@ -44,8 +44,26 @@ def order_sensitive_docs(rng, n, idx):
     fresh = gen.Ids('O%d.' % idx)
     # in 40% of the lists a roDelete sits somewhere in the middle: what follows it is refused
     end_at = rng.randrange(1, n) if (n > 2 and rng.random() < 0.4) else None
-    for k, v in enumerate([x for x in ids_numeric if x != create_id]):
+    owed = None          # a story named by an earlier message that only this message creates
+    rest = [x for x in ids_numeric if x != create_id]
+    for k, v in enumerate(rest):
         c = rng.random()
+        if owed is not None:
+            # the story the previous message was waiting for arrives now: in ascending order that message has
+            # already failed (non-strict: skipped for good), and it is not to be applied late
+            d = B.msg_doc('roStoryAppend', 5, carried=[gen.simple_story(owed, 1)])
+            live.append(owed)
+            owed = None
+            docs.append(d.replace('<messageID>5</messageID>', '<messageID>%s</messageID>' % mid(v)))
+            continue
+        if end_at is None and k + 1 < len(rest) and c < 0.12:
+            owed = fresh.new()
+            new = fresh.new()
+            d = rng.choice([B.msg_doc('roStoryInsert', 5, target=owed, carried=[gen.simple_story(new, 1)]),
+                            B.msg_doc('roStoryMove', 5, ids=[owed], target=rng.choice(live) if live else B.BLANK),
+                            B.msg_doc('roStorySend', 5, story_ref=owed, body=[B.E('p', 'early')], fields=['BODY'])])
+            docs.append(d.replace('<messageID>5</messageID>', '<messageID>%s</messageID>' % mid(v)))
+            continue
         if end_at == k + 1:
             docs.append(B.msg_doc('roDelete', 5).replace('<messageID>5</messageID>',
                                                           '<messageID>%s</messageID>' % mid(v)))
@@ -84,11 +102,55 @@ def order_sensitive_docs(rng, n, idx):
     return docs, ids_numeric, create_id
 
 
+def long_list(s, how, n, tmpdir):
+    """A collection of n messages (a long programme day): appends, deletes and moves whose result depends on
+    the order of application; supplied reversed and shuffled."""
+    rng = s.rng('long-list', how)
+    docs = [gen.grid_ro(['A', 'B'], 'none', pretty=False)]
+    live = ['A', 'B']
+    for v in range(2, n + 1):
+        c = rng.random()
+        if len(live) < 4 or (c < 0.45 and len(live) < 25):
+            new = 'L%d' % v
+            d = B.msg_doc('roStoryAppend', v, carried=[gen.simple_story(new, 1)])
+            live.append(new)
+        elif c < 0.7:
+            d = B.msg_doc('roStoryDelete', v, ids=[live.pop(rng.randrange(len(live)))])
+        else:
+            a, b = rng.sample(live, 2)
+            d = B.msg_doc('roStoryMove', v, ids=[a], target=b)
+        docs.append(d)
+    fold_text, n_failed, ferr, applied = K.hand_fold(s, docs, False)
+    EV.drain()
+    for label, pdocs in (('reversed', docs[::-1]), ('shuffled', rng.sample(docs, len(docs)))):
+        mc, cerr = K.make_collection(s, pdocs, how, True, tmpdir)
+        wit = {'type': 'perm', 'docs': pdocs, 'how': how}
+        s.evaluations += 1
+        if mc is None:
+            s.custom_violation('collection-rejected-for-one-input-order', {'exc': type(cerr).__name__}, wit)
+            continue
+        got_ids = [mr.message_id for mr in mc.mos_readers]
+        if got_ids != list(range(2, n + 1)):
+            s.custom_violation('readers-not-in-ascending-numeric-message-id-order',
+                               {'got': got_ids[:20], 'how': how, 'n': n}, wit, status=how)
+        merr, wn = K.merge_collection(s, mc, False)
+        EV.drain()
+        s.note_sig((how, 'long-list', n, label, type(merr).__name__ if merr else 'ok'))
+        if merr is not None or str(mc) != fold_text:
+            s.custom_violation('result-depends-on-input-order',
+                               {'how': how, 'n': n, 'order': label, 'merge_exc': type(merr).__name__ if merr else None,
+                                'msg': str(merr)[:120] if merr else None}, wit, status=how)
+        s.hist['long_lists:%d' % n] += 1
+
+
 def run(s):
     q = s.tier == 'quick'
     tmpdir = tempfile.mkdtemp(prefix='verif-c10-')
     hows = ('strings', 'files', 's3')
     try:
+        for k, how in enumerate(hows):
+            if s.mine(k):
+                long_list(s, how, 1200 if q else 4000, tmpdir)
         n_lists = 90 if q else 3000
         for i in range(n_lists):
             if not s.mine(i):
@@ -203,4 +265,6 @@ def gates(agg, tier):
            'no list where string order differs from numeric order')
     for how in ('strings', 'files', 's3'):
         K.need(agg, r, agg['hist'].get('permutations:' + how, 0) > 0, 'constructor %s never used' % how)
+    K.need(agg, r, any(k.startswith('long_lists:') and v > 0 for k, v in agg['hist'].items()),
+           'no long message list was merged')
     return r
